@@ -319,6 +319,49 @@ def c07_truncation_duplicate_accepted():
     return (txt[:12], r), r is True
 
 
+def _dangling(out, letters):
+    i = 0
+    while i < len(out):
+        if out[i] == '\\':
+            if i + 2 < len(out) and out[i + 1] in letters and out[i + 2] == '\\':
+                i += 3
+                continue
+            return True
+        i += 1
+    return False
+
+
+@case
+def c06_overlapping_escape_sequences():
+    from hl7apy.base_datatypes import ST as ST25
+    from hl7apy.v2_7.base_datatypes import ST as ST27
+    from hl7apy import get_default_encoding_chars
+    res = []
+    okall = True
+    for cls, ver, letters in ((ST25, '2.5', 'HNFSTRE'), (ST27, '2.7', 'HNFSTREL')):
+        ec = get_default_encoding_chars(ver)
+        for txt in ('\\E^', '^E\\', '\\E\\E\\'):
+            out = cls(txt).to_er7(ec)
+            bad = _dangling(out, letters)
+            res.append((ver, txt, out, bad))
+            okall = okall and bad
+    return res, okall
+
+
+@case
+def c06_wd_truncation_unescaped_v27():
+    import importlib
+    from hl7apy import get_default_encoding_chars
+    res = []
+    for ver in ('2.7', '2.8', '2.8.1', '2.8.2'):
+        lib = importlib.import_module('hl7apy.v' + ver.replace('.', '_'))
+        WD = lib.get_base_datatypes()['WD']
+        ST = lib.get_base_datatypes()['ST']
+        ec = get_default_encoding_chars(ver)
+        res.append((ver, WD('a#b').to_er7(ec), ST('a#b').to_er7(ec)))
+    return res, all(w == 'a#b' and s_ != 'a#b' for _, w, s_ in res)
+
+
 if __name__ == '__main__':
     names = sys.argv[1:] or sorted(CASES)
     for n in names:
